@@ -7,9 +7,16 @@ import os
 
 from vlib import core, impl
 from vlib import x_C05_plugins as plug
-from vlib.core import enc_str, enc_bool, enc_opt, enc_list, enc_Z
+from vlib.core import enc_bool, enc_opt, enc_list, enc_Z
 
 from radicale import httputils, pathutils  # noqa: E402  (vlib.impl put the repo on sys.path)
+
+def enc_str(s):
+    """Python str -> pystr term; printable ASCII goes through the (fast to parse) string notation."""
+    if s and all(32 <= ord(c) < 127 and c != '"' for c in s):
+        return '(str "%s")' % s
+    return core.enc_str(s)
+
 
 PLUGIN = "vlib.x_C05_plugins"
 METHODS = ["DELETE", "GET", "HEAD", "MKCALENDAR", "MKCOL", "MOVE", "OPTIONS", "POST", "PROPFIND", "PROPPATCH", "PUT", "REPORT"]
